@@ -392,12 +392,12 @@ func runCase(c *caseIn) (res resultOut) {
 			defer cancel()
 			closeCh <- classify(s.up.Close(ctx))
 		}()
-		dl := time.After(4 * time.Second)
+		dl := time.Now().Add(4 * time.Second) // one watchdog for all of them
 		get := func(ch chan int) int {
 			select {
 			case v := <-ch:
 				return v
-			case <-dl:
+			case <-time.After(time.Until(dl)):
 				return 7
 			}
 		}
@@ -1195,10 +1195,35 @@ func runBatch(jobs []job, idxs []int, results []*resultOut) {
 		}(idxs)
 		started := -1
 		sc := bufio.NewReader(stdout)
+		// a child that makes no progress for 60 s is killed: the case it was running counts as hung
+		progress := make(chan struct{}, 1)
+		hung := false
+		go func() {
+			for {
+				select {
+				case _, ok := <-progress:
+					if !ok {
+						return
+					}
+				case <-time.After(60 * time.Second):
+					hung = true
+					cmd.Process.Kill()
+					return
+				}
+			}
+		}()
 		for {
 			line, err := sc.ReadString('\n')
+			select {
+			case progress <- struct{}{}:
+			default:
+			}
 			if strings.HasPrefix(line, "START ") {
 				fmt.Sscanf(line, "START %d", &started)
+				if os.Getenv("VERIF_TRACE") != "" {
+					b, _ := json.Marshal(jobs[started].c)
+					fmt.Fprintf(os.Stderr, "START %d %s\n", started, b)
+				}
 			}
 			if strings.HasPrefix(line, "RESULT ") {
 				var idx int
@@ -1213,6 +1238,7 @@ func runBatch(jobs []job, idxs []int, results []*resultOut) {
 				break
 			}
 		}
+		close(progress)
 		io.Copy(io.Discard, stdout)
 		cmd.Wait()
 		// drop finished ones; a started case without a result crashed the child
@@ -1231,6 +1257,10 @@ func runBatch(jobs []job, idxs []int, results []*resultOut) {
 				}
 				if len(first) > 600 {
 					first = first[:600]
+				}
+				if hung {
+					results[i] = &resultOut{Harness: "the case did not finish within 60 s: a library call outside every watchdog never returned"}
+					continue
 				}
 				results[i] = &resultOut{Panic: true, PanicMsg: first}
 				continue
